@@ -18,6 +18,9 @@ StartsM == {S(<<>>, NoKey, 0, TRUE), S(<<K1, K2>>, K1, 0, TRUE), S(<<K2, K3>>, K
 \* operation shorter from the empty ring and two NewKeyring rings, two shorter from the rest
 StartsG == {S(<<>>, NoKey, 0, FALSE),
             S(<<>>, NoKey, 1, TRUE), S(<<K1, K2>>, K1, 1, TRUE), S(<<K2, K3>>, K1, 1, TRUE)} \cup News(2) \cup Fails
+\* thorough tier: the lean alphabet one operation deeper, the same full-alphabet sequences
+StartsG6 == {S(<<>>, NoKey, 0, FALSE),
+             S(<<>>, NoKey, 2, TRUE), S(<<K1, K2>>, K1, 2, TRUE), S(<<K2, K3>>, K1, 2, TRUE)} \cup News(3) \cup Fails
 \* the model check ignores the history (the generator does not)
 KRView == <<keys, start, alive, Len(hist), last>>
 =============================================================================
